@@ -81,7 +81,7 @@ func init() {
 		Technique: "runtime monitor: instrumented CommandFns (who ran, how often, ctx, args, option view) checked against the intended command path of AST-rendered argv on real Parse+Dispatch executions",
 		Rule: "case = random command tree (depth<=3, fan-out<=3, inherited options, UnsetOptions wrappers, commands without CommandFn, failing CommandFns) + argv with options before/after command tokens, command names used as option values, after `--` and after the require-order stop; " +
 			"distinct = (modes, item shapes, levels); non-trivial = at least one command token selects a command and at least one option is visible in the view" + genDims,
-		Cases: func(tier string) int { return tierN(tier, 20000, 4000000) },
+		Cases: func(tier string) int { return tierN(tier, 60000, 4000000) },
 		Run: func(seed uint64, idx int, tier string) *fw.Result {
 			r := CaseRng(seed, "C10", idx)
 			pc := DefaultCfg()
